@@ -44,7 +44,9 @@ pub fn simd_gemv<I: Isa, const NR_REGS: usize>(
             let a_elts = ops.splat(a_elt);
 
             // Pre-fetch the current row for the next column tile.
-            ops.prefetch(unsafe { b_ptr.add(k * b_row_stride + b_tile.start + NR_REGS + v_len) });
+            // The prefetched address may be past the end of the buffer, so it is
+            // computed with wrapping arithmetic rather than `add`.
+            ops.prefetch(b_ptr.wrapping_add(k * b_row_stride + b_tile.start + NR_REGS + v_len));
 
             for i in 0..NR_REGS {
                 let b_elts = unsafe {
@@ -891,7 +893,7 @@ pub fn simd_int8_gemv<I: Isa, const CAST_B_U8: bool>(
 
             // Pre-fetch the current block of 4 rows for the next column tile.
             for i in 0..4 {
-                i8_ops.prefetch(unsafe { b_tile_ptr[i].add(i8_ops.len()) });
+                i8_ops.prefetch(b_tile_ptr[i].wrapping_add(i8_ops.len()));
             }
 
             for i in 0..4 {
